@@ -288,6 +288,18 @@ pub fn audit_registry(sim: &Sim, seq: u64, cov: &mut Cover) {
         41..=60 => "41-60",
         _ => "61+",
     };
+    // C14.c: the factory's own Config query names the owner the history made
+    cov.eval("C14", "c");
+    match sim.query::<haloswap::factory::ConfigResponse, _>(&m.factory, &haloswap::factory::QueryMsg::Config {}) {
+        Ok(c) if c.owner == m.owner => {}
+        other => cov.violate(
+            "C14",
+            "c",
+            "config-owner-diverges",
+            seq,
+            format!("factory Config reports owner {:?}, ownership history says {}", other.map(|c| c.owner), m.owner),
+        ),
+    }
     // C17.a: denom query
     for (denom, dec) in &m.natives {
         cov.eval("C17", "a");
